@@ -110,6 +110,7 @@ def run(ctx: Ctx):
     n_sched = 3 if quick else 14
     cli_cpus = [1, 3, 8] if quick else [1, 2, 3, 5, 8, 16]
     lines, tags = [], []
+    run_histories = []
     for k in range(n_inputs):
         inp = pipecases.make_input(rng, n_refs=2, n_qry=11, kinds=["samestart", "flankdup", "samestart", "mirror", "flankdup", "samestart",
                                                     "inversion", "inversion", "tiny", "tiny", "tiny"],
@@ -193,8 +194,10 @@ def run(ctx: Ctx):
         base2 = pipecases.run_once(wd, rp2, qp2, "again_seq", "all")
         runs2 = [{"label": "other references, in-process sequential",
                   "digest": [f"{n}:{d}" for n, d in sorted(base2["digest"].items())]}]
+        again_outs = []
         for c in (3, 2, 3):
             out = os.path.join(wd, f"again{c}_{len(runs2)}.xmap")
+            again_outs.append((2, c, out))
             status, res = pipeline.run_inprocess(pipeline.arg_list(rp2, qp2, out, "all", c), [], real_pool=True)
             if status != "ok":
                 raise tlc.MachineryError(f"repeated in-process run failed: {status} {str(res)[-400:]}")
@@ -204,8 +207,38 @@ def run(ctx: Ctx):
             ctx.nontrivial((k, "again", c, len(runs2)))
         lines.append({"order": qids, "exec": [], "runs": runs2})
         tags.append({"input": k, "mode": "all", "repetition_in_one_process": True})
+        # the same history as a trace of Runs.tla: which reference file each written record was computed from, read off
+        # its RefStartPos (first listed reference label: at x in file 1, at x + 5 kb in file 2)
+        refx = {r["id"]: r["x"] for r in inp["refs"]}
+        history = []
+        for env_no, cpus_no, out in [(1, 3, os.path.join(wd, f"steerall{n_sched - 1}.xmap"))] + again_outs:
+            used = []
+            for path in pipeline.output_files(out, "all").values():
+                for rec in pipeline.parse_xmap(path)["records"]:
+                    if rec.get("malformed") or not rec["pairs"] or rec["r"] not in refx:
+                        continue
+                    x0 = refx[rec["r"]][rec["pairs"][0][0] - 1] if 1 <= rec["pairs"][0][0] <= len(refx[rec["r"]]) else None
+                    used.append(1 if rec["rs"] == x0 else 2 if x0 is not None and rec["rs"] == x0 + 50000 else 0)
+            history.append({"env": env_no, "cpus": cpus_no, "used": used})
+        run_histories.append({"runs": history})
         pipeline.install_sequential_map()
         shutil.rmtree(wd, ignore_errors=True)
+    # Runs.tla: the life of the pools across the runs of one process (repetition part of C09)
+    for cfg in ("MC_Runs_code.cfg", "MC_Runs_forkclear.cfg", "MC_Runs_argcache.cfg"):
+        ctx.add_model(f"MC_Runs({cfg[8:-4]})", tlc.run_tlc("MC_Runs", cfg, ctx.workdir, workers=2))
+    stale = tlc.run_tlc("MC_Runs", "MC_Runs_stale.cfg", ctx.workdir, workers=2, allow_violation=True)
+    if not stale.invariant_violated:
+        raise tlc.MachineryError("MC_Runs_stale: inherited inputs + cached pools no longer violate Inv_Repetition in the model")
+    ctx.notes["named_deviation_stale_pool"] = ("Delivery=fork with ClearsPool=FALSE violates Inv_Repetition in Runs.tla, as "
+                                               "expected; the code is (argument, TRUE)")
+    vr, rr = batch.validate("Trace_Runs", "Trace_Runs.cfg", ctx.workdir, run_histories, name="runs.ndjson")
+    ctx.add_traces(len(run_histories))
+    ctx.notes["process_histories"] = {"n": len(run_histories), "runs_each": len(run_histories[0]["runs"]),
+                                      "records_in_first": [len(x["used"]) for x in run_histories[0]["runs"]]}
+    for tid, (failed, drift) in sorted(vr.items()):
+        if failed:
+            ctx.violation({"history": run_histories[tid]}, failed, "",
+                          what=f"process history {tid}: {[(x['env'], x['cpus'], sorted(set(x['used']))) for x in run_histories[tid]['runs']]}")
     verdicts, r = batch.validate("Trace_Pool", "Trace_Pool.cfg", ctx.workdir, lines)
     ctx.add_traces(len(lines))
     ctx.notes["runs_compared"] = sum(len(ln["runs"]) for ln in lines)
